@@ -160,10 +160,12 @@ use crate::world::peer_cfg;
 pub const FAULTS: [TrackerOutcome; 4] = [TrackerOutcome::Refused, TrackerOutcome::Http500, TrackerOutcome::Garbage, TrackerOutcome::FailureReason];
 
 /// One fault word (indices into FAULTS) followed by a good announce.
-pub fn fault_case(dir: &std::path::PathBuf, word: &[usize], verbose: bool) -> (u64, Option<(&'static str, String)>) {
+pub fn fault_case(dir: &std::path::PathBuf, word: &[usize], leave_after: Option<usize>, verbose: bool) -> (u64, Option<(&'static str, String)>) {
     let t = Torrent::new("t", 5, &[("f", 15)], true);
-    let cfgs = vec![peer_cfg(0, true), peer_cfg(1, true), peer_cfg(2, true)];
-    let mut script = vec![TrackerOutcome::Good(vec![0, 1])];
+    // P (0) stays, Q (1) leaves first and triggers the re-announce, R (2) is only listed at the end,
+    // S (3) is connected from the start and may leave in the middle of the fault sequence
+    let cfgs = vec![peer_cfg(0, true), peer_cfg(1, true), peer_cfg(2, true), peer_cfg(3, true)];
+    let mut script = vec![TrackerOutcome::Good(vec![0, 1, 3])];
     script.extend(word.iter().map(|f| FAULTS[*f].clone()));
     script.push(TrackerOutcome::Good(vec![0, 1, 2]));
     let mut w = FullWorld::new(&t, &cfgs, script, TrackerOutcome::Good(vec![0, 1, 2]), dir);
@@ -172,14 +174,16 @@ pub fn fault_case(dir: &std::path::PathBuf, word: &[usize], verbose: bool) -> (u
     if verbose {
         println!("after start: {}", desc(&w));
     }
-    if w.peers[0].connects != 1 || w.peers[1].connects != 1 {
+    if w.peers[0].connects != 1 || w.peers[1].connects != 1 || w.peers[3].connects != 1 {
         return (steps, Some(("MACHINERY", format!("first announce did not lead to connections: {}", desc(&w)))));
     }
     let idp = w.peers[0].cfg.id;
     let idq = w.peers[1].cfg.id;
     w.step(&FEv::Feed(0, [refwire::encode(&refwire::handshake(t.meta.info_hash(), &idp)), refwire::encode(&Msg::Bitfield(vec![0xe0])), refwire::encode(&Msg::Unchoke)].concat()));
     w.step(&FEv::Feed(1, refwire::encode(&refwire::handshake(t.meta.info_hash(), &idq))));
-    steps += 2;
+    let ids = w.peers[3].cfg.id;
+    w.step(&FEv::Feed(3, refwire::encode(&refwire::handshake(t.meta.info_hash(), &ids))));
+    steps += 3;
     // Q leaves: no candidates are left, so the client announces again
     w.step(&FEv::Close(1));
     steps += 1;
@@ -192,6 +196,14 @@ pub fn fault_case(dir: &std::path::PathBuf, word: &[usize], verbose: bool) -> (u
     let mut p_chokes = false; // P unchoked us in the prefix
     for k in 0..word.len() {
         // the k-th announce failed; the session must keep serving P meanwhile
+        if leave_after == Some(k) {
+            // another connection ends in the middle of the fault sequence
+            w.step(&FEv::Close(3));
+            steps += 1;
+            if verbose {
+                println!("S left after {} failure(s): {}", k, desc(&w));
+            }
+        }
         p_chokes = !p_chokes;
         w.step(&FEv::Feed(0, refwire::encode(&if p_chokes { Msg::Choke } else { Msg::Unchoke })));
         steps += 1;
@@ -258,27 +270,40 @@ fn fault_words(max_n: usize) -> Vec<Vec<usize>> {
 
 fn fault_part(ctx: &Ctx) -> (u64, u64, Vec<Value>) {
     let words = fault_words(70);
+    // every fault word alone, and with the extra peer leaving after each prefix of <= 3 failures
+    let mut cases: Vec<(Vec<usize>, Option<usize>)> = vec![];
+    for w in &words {
+        cases.push((w.clone(), None));
+        for k in 0..w.len().min(3) {
+            cases.push((w.clone(), Some(k)));
+        }
+        if w.len() > 66 {
+            cases.push((w.clone(), Some(w.len() - 66)));
+        }
+    }
     let res = core::par_map(
-        &words,
+        &cases,
         |w| {
             core::set_quiet_panics(true);
             core::private_cwd("c19", &format!("w{}", w))
         },
-        |dir, _, word| fault_case(dir, word, false),
+        |dir, _, (word, leave)| fault_case(dir, word, *leave, false),
     );
+    let words_n = words.len();
+    let _ = words_n;
     let mut steps = 0;
-    for (word, (n, v)) in words.iter().zip(res.iter()) {
+    for ((word, leave), (n, v)) in cases.iter().zip(res.iter()) {
         steps += n;
         if let Some((class, why)) = v {
             if *class == "MACHINERY" {
                 ctx.machinery_error(why.clone());
             } else {
-                ctx.violation(class, why.clone(), json!({"kind": "faults", "word": word}));
+                ctx.violation(class, format!("{}{}", why, match leave { Some(k) => format!(" [a second connection ended after failure {}]", k), None => String::new() }), json!({"kind": "faults", "word": word, "leave_after": leave}));
             }
         }
     }
     let samples = vec![json!({"tracker_outcomes": ["Good[P,Q]", "Refused", "Http500", "Good[P,Q,R]"], "peer_events": "P: handshake+bitfield+unchoke; Q: handshake, close; after each failure P toggles choke"})];
-    (words.len() as u64, steps, samples)
+    (cases.len() as u64, steps, samples)
 }
 
 /// Deep nesting goes through the recursive decoder: probe in subprocesses (a stack overflow aborts).
@@ -334,7 +359,7 @@ pub fn run(ctx: &Ctx) -> Outcome {
     o.set("fault_sequences", json!(fault_runs));
     o.set("evaluations", json!(sigma + docs.len() as u64));
     o.set("distinct_nontrivial", json!(accepted));
-    o.set("rule", json!(format!("(a) every string over the C16 alphabet of length 0..={} through TrackerResp::from_bencode (totality); structured replies = peers list of 0..3 entries drawn from 11 entry shapes (2 good, 9 malformed) or missing/ill-typed x 5 interval shapes x 5 failure-reason shapes (absent, text, empty, non-UTF-8, ill-typed), all distinct; non-trivial = structured replies read as success. (b) full-session world (real event_loop, tracker task, retry loop, handle_tracker_cmd, spawn_peer_handler over the seams): tracker outcome words F^n.S for every F-word of length <= 3 over the four fault kinds (refused, HTTP 500, garbage body, failure reason) and the four homogeneous words for every n in 4..=70, with a live connection P; after every failure P toggles choke/unchoke and the manager must have processed it in that quiescent step; after S the listed peers must be contacted; states = fault words, transitions = events executed", max_len)));
+    o.set("rule", json!(format!("(a) every string over the C16 alphabet of length 0..={} through TrackerResp::from_bencode (totality); structured replies = peers list of 0..3 entries drawn from 11 entry shapes (2 good, 9 malformed) or missing/ill-typed x 5 interval shapes x 5 failure-reason shapes (absent, text, empty, non-UTF-8, ill-typed), all distinct; non-trivial = structured replies read as success. (b) full-session world (real event_loop, tracker task, retry loop, handle_tracker_cmd, spawn_peer_handler over the seams): tracker outcome words F^n.S for every F-word of length <= 3 over the four fault kinds (refused, HTTP 500, garbage body, failure reason) and the four homogeneous words for every n in 4..=70, with a live connection P, each word alone and with another connection ending after 0..2 failures (a KillReq in the middle of the fault sequence); after every failure P toggles choke/unchoke and the manager must have processed it in that quiescent step; after S the listed peers must be contacted; states = fault words, transitions = events executed", max_len)));
     o.set("sigma_strings", json!(sigma));
     o.set("structured_replies", json!(docs.len()));
     let picks = ctx.seeded_pick(docs.len(), 4);
@@ -356,7 +381,8 @@ pub fn replay(_ctx: &Ctx, r: &Value) -> i32 {
         let dir = core::private_cwd("c19", "replay");
         core::set_quiet_panics(true);
         println!("tracker outcomes: Good[P,Q], {:?}, Good[P,Q,R]", word.iter().map(|f| format!("{:?}", FAULTS[*f])).collect::<Vec<_>>());
-        return match fault_case(&dir, &word, true).1 {
+        let leave = r["leave_after"].as_u64().map(|x| x as usize);
+        return match fault_case(&dir, &word, leave, true).1 {
             Some((class, why)) => {
                 println!("VIOLATION property=C19 replay=<this file>\n  class={} {}", class, why);
                 1
